@@ -1,6 +1,6 @@
 (* C08 — equality / inequality compare whole polynomials (Expr.v, ExprExec.v).  Statements only. *)
 From Coq Require Import ZArith List.
-From NTT Require Import Expr ExprExec.
+From NTT Require Import Expr ExprExec VecCompare.
 Local Open Scope Z_scope.
 
 (* a != b converts to true exactly when some stored word differs *)
@@ -26,3 +26,18 @@ Theorem C08_pinned_eq_refuted : forall fop fsh fcs oeq, (forall x y, fop oeq x y
   any_nz fop fsh fcs h (Bin oeq (Leaf a) (Leaf b)) 2 = true /\ ~ (forall i, (i < 2)%nat -> h a i = h b i).
 Proof. intros fop fsh fcs oeq H. exact (pinned_eq_refuted fop fsh fcs oeq H). Qed.
 Print Assumptions C08_pinned_eq_refuted.
+
+(* SIMD builds: == / != on vector registers compare 64-bit LANES (g = 64/w limbs each; all-ones or zero per lane).  The all-of scan of
+   (x == y) still decides limb-for-limb equality, the any-of scan of (x != y) still decides "some limb differs", and they are complementary *)
+Theorem C08_vector_lane_eq : forall g, (0 < g)%nat -> forall (x y : nat -> Z) n, (exists m, n = (m * g)%nat) -> forall ones, ones <> 0 ->
+  ((forall i, (i < n)%nat -> veq g x y ones i <> 0) <-> (forall i, (i < n)%nat -> x i = y i)).
+Proof. exact veq_all. Qed.
+Print Assumptions C08_vector_lane_eq.
+Theorem C08_vector_lane_neq : forall g, (0 < g)%nat -> forall (x y : nat -> Z) n, (exists m, n = (m * g)%nat) -> forall ones, ones <> 0 ->
+  ((exists i, (i < n)%nat /\ vne g x y ones i <> 0) <-> (exists i, (i < n)%nat /\ x i <> y i)).
+Proof. exact vne_any. Qed.
+Print Assumptions C08_vector_lane_neq.
+Theorem C08_vector_lane_complementary : forall g, (0 < g)%nat -> forall (x y : nat -> Z) n, (exists m, n = (m * g)%nat) -> forall ones, ones <> 0 ->
+  ((forall i, (i < n)%nat -> veq g x y ones i <> 0) <-> ~ (exists i, (i < n)%nat /\ vne g x y ones i <> 0)).
+Proof. exact veq_vne_complementary. Qed.
+Print Assumptions C08_vector_lane_complementary.
